@@ -181,6 +181,14 @@ class MetadataManager:
 
                 # PHASE 2: Prepare new version
                 new_metadata.last_updated_ms = int(datetime.now().timestamp() * 1000)
+                # (current_snapshot_id, last_updated_ms) is the OCC version stamp, so
+                # it must change with EVERY commit. A commit that keeps the current
+                # snapshot (expire, delete_snapshot, property change) landing in the
+                # same millisecond as its base - coarse or stepped-back clock - left
+                # the stamp unchanged: a second committer holding the same base then
+                # passed validation and overwrote the first one's acknowledged change.
+                if current is not None and new_metadata.last_updated_ms <= current.last_updated_ms:
+                    new_metadata.last_updated_ms = current.last_updated_ms + 1
 
                 # Read current version (and, on CAS backends, the hint's ETag so
                 # the commit point below can be a true compare-and-swap).
